@@ -143,8 +143,11 @@ let f _id vs =
     let syncm = ref false and syncs = ref false in
     List.iteri (fun i opv ->
       match as_list opv with
-      | [I "0"; mode; od; om; tick; fault; dels; wrs; om_v; os_v] ->
-        let mode = as_int mode and fault = as_int fault in
+      | [I "0"; mode; od; om; tick; fault; dels; wrs; om_v; os_v; flav] ->
+        let mode = as_int mode and fault = as_int fault and flav = as_int flav in
+        (* flavours 4 / 5: the command layer over a datastore that answers ErrWriteConflictOnDelete /
+           OnInsert without applying anything *)
+        let lost_race st = ((if flav = 4 then WErr EConflictDelete else WErr EConflictInsert), st) in
         let ondup = opt_of (as_int od) and onmiss = opt_of (as_int om) in
         let now = as_n tick in
         let dels = List.map del_of (as_list dels) and wrs = List.map wr_of (as_list wrs) in
@@ -245,7 +248,8 @@ let f _id vs =
         (* memory *)
         let mem_before = !ms in
         let (mres, ms') =
-          if mode = 0 then mem_cmd_write ondup onmiss dels wrs now !ms else mem_write ondup onmiss dels wrs now !ms in
+          if flav >= 4 then cmd_wrap (fun _ _ _ _ st -> lost_race st) ondup onmiss dels wrs !ms
+          else if mode = 0 then mem_cmd_write ondup onmiss dels wrs now !ms else mem_write ondup onmiss dels wrs now !ms in
         (match parse_obs om_v with
          | Some o ->
            ms := ms';
@@ -262,16 +266,21 @@ let f _id vs =
         (match parse_obs os_v with
          | Some o ->
            let (sres, se', tr) =
-             if mode = 0 then (let (r, e) = sql_cmd_write_c ondup onmiss dels wrs now !se in (r, e, []))
+             if flav >= 4 then (let (r, e) = cmd_wrap (fun _ _ _ _ st -> lost_race st) ondup onmiss dels wrs !se in (r, e, []))
+             else if mode = 0 then (let (r, e) = sql_cmd_write_c ondup onmiss dels wrs now !se in (r, e, []))
              else (let ((r, e), t) = sql_write_c ondup onmiss dels wrs now (nat_of_int fault) !se in (r, e, t)) in
            se := se';
            let t' = se'.en_comm in
            dnum (errcode sres); dnum (List.length (sql_obs_tuples t')); dnum (List.length (sql_obs_log t'));
            dnum (chk_state (sql_obs_tuples t') (sql_obs_log t')); dnum (List.length tr);
            let bt ty = List.map (fun r -> chg_of (lrow_obs r)) (sql_read_changes (bytes_to_coq ty) far_future N0 false t') in
-           if mode = 1 && o.trace <> List.map kind_code tr then
+           (* a cancelled context stops the request before statement [fault] reaches the driver *)
+           (* a cancelled context: database/sql may or may not let statement [fault] reach the driver *)
+           let mtr = List.map kind_code tr in
+           let tr_seen = if flav = 2 && List.length o.trace >= fault - 1 && is_prefix o.trace mtr then List.map (fun c -> List.nth tr c) (List.init (List.length o.trace) (fun j -> j)) else tr in
+           if mode = 1 && o.trace <> List.map kind_code tr_seen then
              diff "step %d sqlite: statement trace impl=[%s] model=[%s]" i
-               (String.concat "," (List.map string_of_int o.trace)) (String.concat "," (List.map (fun k -> string_of_int (kind_code k)) tr));
+               (String.concat "," (List.map string_of_int o.trace)) (String.concat "," (List.map (fun k -> string_of_int (kind_code k)) tr_seen));
            if o.crash <> [] && List.length o.crash <> List.length o.trace + 1 then
              diff "step %d sqlite: %d crash snapshots for %d statements" i (List.length o.crash) (List.length o.trace);
            check "sqlite" o sres (sql_obs_tuples t') (sql_obs_log t') bt ps hs
@@ -374,6 +383,66 @@ let f _id vs =
         | None, (flag, m) :: _ -> "KNOWN " ^ flag ^ " " ^ cut m
         | None, [] -> "OK")
      )
+  | [I "2"; backend; init; reqs; final; log] ->
+    (* a race: k concurrent requests; linearisability against the sequential specification *)
+    let strs l = List.map (fun x -> match x with B b -> b | I i -> i | _ -> "?") (as_list l) in
+    let bname = if as_int backend = 0 then "memory" else "sqlite" in
+    let init = List.map strs (as_list init) and final = sort_t (List.map strs (as_list final)) in
+    let log = List.map strs (as_list log) in
+    let reqs = List.mapi (fun i rv ->
+      match as_list rv with
+      | [mode; od; om; dels; wrs; err] ->
+        (i, as_int mode, opt_of (as_int od), opt_of (as_int om), List.map del_of (as_list dels), List.map wr_of (as_list wrs), as_int err)
+      | _ -> failwith "malformed race request") (as_list reqs) in
+    if not prop_c12 then "OK" else begin
+      (* what the specification says request r does in state cur: `Fail, or `Ok (tuples', deletes logged, writes logged) *)
+      let effect (_, mode, od, om, dels, wrs, _) cur =
+        if mode = 0 && cmd_validate od om dels wrs <> None then `Fail
+        else match spec_write od om dels wrs cur with
+          | None -> `Fail
+          | Some ((ts', dl), wl) -> `Ok (ts', List.map chg_of dl, List.map chg_of wl) in
+      let errof (_, _, _, _, _, _, e) = e in
+      (* memory stamps the entries under its lock: the changelog order is the serial order and each
+         request's entries are matched at the current position.  sqlite takes the ULID timestamp
+         before BEGIN, so blocks of concurrent requests may be ordered differently from their
+         commits: there the entries are matched as a multiset. *)
+      let ordered = as_int backend = 0 in
+      let rec remove_all xs l = match xs with
+        | [] -> Some l
+        | x :: xs' ->
+          let rec rm l = match l with [] -> None | y :: l' -> if y = x then Some l' else (match rm l' with Some r -> Some (y :: r) | None -> None) in
+          (match rm l with Some l' -> remove_all xs' l' | None -> None) in
+      let rec solve remaining cur lg =
+        (* a request that failed, and that the specification fails in this state, can be placed
+           at once (it changes nothing); a successful request is a branching point even when it
+           has nothing to do here - it may be the one that did something later *)
+        let placeable r = match effect r cur with
+          | `Fail -> errof r <> 0
+          | `Ok _ -> false in
+        (* a transient sqlite failure (busy / timeout, class 9) changes nothing wherever it is placed *)
+        let transient r = as_int backend = 1 && errof r = 9 in
+        let (now_, rest) = List.partition (fun r -> placeable r || transient r) remaining in
+        if now_ <> [] then solve rest cur lg
+        else if rest = [] then lg = [] && sort_t (List.map tup_of cur) = final
+        else List.exists (fun r ->
+            match effect r cur with
+            | `Ok (ts', dl, wl) when errof r = 0 ->
+              let nd = List.length dl and nw = List.length wl in
+              let others = List.filter (fun x -> x != r) rest in
+              if ordered then
+                nd + nw <= List.length lg
+                && sort_t (take nd lg) = sort_t dl && take nw (drop nd lg) = wl
+                && solve others ts' (drop (nd + nw) lg)
+              else (match remove_all (dl @ wl) lg with
+                  | Some lg' -> solve others ts' lg'
+                  | None -> false)
+            | _ -> false) rest in
+      if solve reqs (List.map otuple_of init) log then "OK"
+      else "PROP " ^ (let cut m = if String.length m > 1500 then String.sub m 0 1500 ^ "..." else m in
+        cut (Printf.sprintf "%s: no sequential order of the %d concurrent requests explains their results [%s], the final tuples %s and the new changelog entries %s (initial tuples %s)"
+          bname (List.length reqs) (String.concat "," (List.map (fun r -> string_of_int (errof r)) reqs))
+          (show_l show_t final) (show_l show_c log) (show_l show_t (sort_t init))))
+    end
   | _ -> "DIFF malformed-record"
 
 let () = run_oracle f
